@@ -162,6 +162,7 @@ func TestVerifC19Main(t *testing.T) {
 	}
 	log.SetOutput(io.Discard)
 	root := filepath.Join(scratch, "c19main")
+	os.RemoveAll(root) // a repeated run of the harness must not find the raft directories of the previous one
 	if err := os.MkdirAll(root, 0700); err != nil {
 		t.Fatal(err)
 	}
